@@ -62,6 +62,8 @@ pub struct Profile {
 /// a ladder of sizes: small, past 16, past 64 / 128, past 256, past 1024
 const GROW_STD: &[(u32, u32, u32)] = &[(20, 2, 10), (8, 17, 40), (6, 60, 135), (4, 250, 400), (1, 1030, 1100)];
 /// C13: arenas whose capacity exceeds 4096
+/// C17: depths beyond 4096 as well
+const GROW_C17: &[(u32, u32, u32)] = &[(20, 2, 10), (8, 17, 40), (6, 60, 135), (3, 250, 400), (1, 1030, 1100), (1, 4100, 4300)];
 const GROW_C13: &[(u32, u32, u32)] = &[(20, 2, 10), (6, 17, 135), (2, 250, 400), (1, 4100, 5200)];
 /// reaches slot indices beyond u16
 pub const GROW_XL: &[(u32, u32, u32)] = &[(2, 2, 10), (1, 250, 400), (3, 66_000, 70_000)];
@@ -206,6 +208,7 @@ impl Profile {
             }
             "C11" => {
                 p.name = "C11";
+                p.w_churn_to = 1;
                 p.w_remove = 12;
                 p.w_remove_subtree = 6;
                 p.w_new = 18;
@@ -242,6 +245,7 @@ impl Profile {
             }
             "C16" => {
                 p.name = "C16";
+                p.w_churn_to = 1;
                 p.w_roundtrip = 8;
                 p.churn = CHURN_C16;
                 p.w_remove = 14;
@@ -253,6 +257,8 @@ impl Profile {
             }
             "C17" => {
                 p.name = "C17";
+                p.grow = GROW_C17;
+                p.w_grow = 3;
                 p.churn = CHURN_C17;
                 p.w_churn = 2;
                 p.w_set = 3;
@@ -261,7 +267,7 @@ impl Profile {
                 p.w_churn = 1;
                 p.w_probe = 2;
                 p.s_removed = 12;
-                p.deep = DeepCfg { traversals: true, dei: true, lookups: true, drain: true, pairs: false, unary: false, max_cand: 6, dei_exh_bits: 6, dei_sampled: 4, at_end: true };
+                p.deep = DeepCfg { traversals: true, dei: true, lookups: true, drain: true, pairs: true, unary: false, max_cand: 4, dei_exh_bits: 6, dei_sampled: 4, at_end: true };
             }
             // fuzzing profile: every oracle available, but deep checks only where the input asks for them
             "FUZZ" => {
